@@ -126,6 +126,25 @@ def check_cache_reads_own_key(ck, cm: CacheModel, R):
     ck.need(n >= 1, "MemoryCache.read_result returns no value")
 
 
+def check_metadata_single_form(ck, R):
+    """Custom metadata for a key lives in ONE of two forms (a plain file, or a marker that says the value is beside
+    the data object) and the reader probes the plain form first: a writer that leaves the other form behind makes
+    a later read return the superseded value.  write_metadata removes the key's other form."""
+    fa = FA(ck, MDS + ".write_metadata")
+    dels = [c for c in fa.calls("delete_all_versions") + fa.calls("delete_nonversioned_key")]
+    ok = False
+    for c in dels:
+        if not c.args:
+            continue
+        e = fa.expand(c.args[0])
+        inner = [x for x in ast.walk(e) if isinstance(x, ast.Call) and A.call_attr(x) == "_get_metadata_key"]
+        if any(len(x.args) >= 3 and isinstance(x.args[2], ast.UnaryOp) and isinstance(x.args[2].op, ast.Not) and A.norm(x.args[2].operand) == "stored_with_data" for x in inner):
+            ok = True
+    ck.ob(R, fa.key(None, "other-form-removed"), ok, "writing one form of a metadata key removes the other form" if ok else
+          "write_metadata does not remove the key's other form (plain file / with-data marker): write_metadata(k, v1) followed by "
+          "write_metadata(k, v2, store_with_content_key=...) reads back v1 on the filesystem backend, v2 on the memory backend", fa.where())
+
+
 def check_delete_enumerates_versions(ck, R):
     """Deleting a key of the filesystem data source removes EVERY version of it: a key written twice has
     two version objects and only the newest is named by the link, so resolving the link finds one of them.
@@ -255,6 +274,20 @@ def check_forget_scope(ck, cm: CacheModel):
     okF = bool(per_call) and any(isinstance(fF.enclosing(c, ast.For), ast.For) and "list_mementos" in A.norm(fF.enclosing(c, ast.For).iter) for c in per_call)
     ck.ob(R, fF.key(None, "per-call"), okF, "forget_function forgets each memento of exactly this function" if okF else
           "forget_function does not iterate this function's mementos through forget_call", fF.where())
+    # custom metadata (and results) are keyed per call and can exist for calls that have no memento: they go with the
+    # function as well, selected by the '<qualified name>/' prefix (terminated, so that f#1 does not take f#10 along)
+    for tb in ("metadata", "result"):
+        sel = [c for c in fF.calls("startswith") if any("attr:self." + tb in fF.deps(g.iter) for comp in ast.walk(fF.node) if isinstance(comp, (ast.ListComp, ast.GeneratorExp, ast.SetComp))
+                                                         for g in comp.generators if fF.inside(c, comp))]
+        rem = [n for n in A.walk_body(fF.node) if (isinstance(n, ast.Delete) and any(isinstance(t, ast.Subscript) and A.norm(t.value) == "self." + tb for t in n.targets))
+               or (isinstance(n, ast.Call) and A.call_attr(n) == "pop" and A.norm(A.call_recv(n)) == "self." + tb)]
+        term = bool(sel) and all(c.args and ("const:'/'" in fF.deps(c.args[0])) and "qualified_name" in {d.split(".")[-1] for d in fF.deps(c.args[0]) if d.startswith("attr:")} for c in sel)
+        okT = bool(sel) and bool(rem) and term
+        if tb == "result" and not sel:
+            continue  # results are removed per memento by forget_call; a prefix sweep is optional
+        ck.ob(R, fF.key(None, "by-prefix:" + tb), okT, "forget_function drops %s entries under '<qualified name>/'" % tb if okT else
+              "forget_function leaves %s entries of calls that have no memento (the filesystem backend drops them with the function's directory): "
+              "no terminated '<qualified name>/' prefix sweep over self.%s" % (tb, tb), fF.where())
 
 
 def _enumerated_fields(ck, cls):
@@ -305,9 +338,8 @@ def check_queries_effect_free(ck, rule="C05.R3"):
                 if not is_persist_owner(owner):
                     continue
                 f = fld.split(":")[0]
-                if fld.endswith(":autoviv") and f not in enum_fields:
-                    ck.note(rule, key + "::autoviv-" + f, "defaultdict autovivification of %s.%s at %s (no query enumerates that table)" % (owner, f, A.loc(fi, node)))
-                    continue
+                # a look-up that creates an entry in a defaultdict changes backend state too, whether or not a query
+                # enumerates that table today (and it does so on a read-only backend as well)
                 bad.append((owner, fld, fi, node, chain))
             if bad:
                 for (owner, fld, fi, node, chain) in bad[:3]:
@@ -658,6 +690,7 @@ def check(ck):
     ck.run(check_keying, ck, "C05.R1")
     ck.run(check_forget_scope, ck, cm)
     ck.run(check_delete_enumerates_versions, ck, "C05.R2")
+    ck.run(check_metadata_single_form, ck, "C05.R4")
     ck.run(check_cache_reads_own_key, ck, cm, "C05.R4")
     ck.run(check_queries_effect_free, ck, "C05.R3")
     ck.run(check_cache_coherence, ck, cm)
